@@ -20,18 +20,13 @@ Section HeapFacts.
     replace (a - Nat.min a (length h)) with 0 by lia. reflexivity.
   Qed.
 
-  Lemma hget_hset_other : forall (h : list O) a b v, a <> b -> hget dflt (hset h a v) b = hget dflt h b.
+  Lemma hget_hset_other : forall (h : list O) a b v, a < length h -> a <> b -> hget dflt (hset h a v) b = hget dflt h b.
   Proof.
-    intros h a b v Hne. unfold hget, hset. destruct (Nat.lt_ge_cases a (length h)) as [Ha|Ha].
-    - destruct (Nat.lt_ge_cases b a) as [Hb|Hb].
-      + rewrite app_nth1 by (rewrite firstn_length; lia). apply nth_firstn_lt. exact Hb.
-      + rewrite app_nth2; rewrite firstn_length; [|lia]. replace (Nat.min a (length h)) with a by lia.
-        destruct (b - a) as [|k] eqn:E; [lia|]. cbn [nth]. rewrite nth_skipn'. f_equal. lia.
-    - rewrite firstn_all2 by lia. rewrite skipn_all2 by lia.
-      destruct (Nat.lt_ge_cases b (length h)) as [Hb|Hb].
-      + apply app_nth1. exact Hb.
-      + rewrite app_nth2 by lia. rewrite (nth_overflow h) by lia.
-        destruct (b - length h) as [|k] eqn:E; [lia|]. destruct k; reflexivity.
+    intros h a b v Ha Hne. unfold hget, hset.
+    destruct (Nat.lt_ge_cases b a) as [Hb|Hb].
+    - rewrite app_nth1 by (rewrite firstn_length; lia). apply nth_firstn_lt. exact Hb.
+    - rewrite app_nth2; rewrite firstn_length; [|lia]. replace (Nat.min a (length h)) with a by lia.
+      destruct (b - a) as [|k] eqn:E; [lia|]. cbn [nth]. rewrite nth_skipn'. f_equal. lia.
   Qed.
 
   Lemma hget_alloc_old : forall (h : list O) v b, b < length h -> hget dflt (h ++ [v]) b = hget dflt h b.
@@ -71,10 +66,10 @@ Proof.
   intros h d k a v. induction d as [|[k' a'] r IH]; intros Hnd Hl Ha; simpl in *; [discriminate|].
   inversion Hnd as [|? ? Hni Hnd']; subst. destruct (stype_eqb k k') eqn:E.
   - injection Hl as ->. cbn [fst snd]. rewrite (hget_hset_same [] h a v Ha). f_equal.
-    apply read_unchanged. intros sa Hin. apply hget_hset_other. intros ->. apply Hni. apply in_map. exact Hin.
+    apply read_unchanged. intros sa Hin. apply hget_hset_other; [exact Ha|]. intros ->. apply Hni. apply in_map. exact Hin.
   - cbn [fst snd]. assert (Hne : a <> a').
     { intros ->. apply Hni. apply (alookup_In stype_eqb stype_eqb_spec) in Hl. apply (in_map snd) in Hl. exact Hl. }
-    rewrite (hget_hset_other [] h a a' v Hne). f_equal. apply IH; assumption.
+    rewrite (hget_hset_other [] h a a' v Ha Hne). f_equal. apply IH; assumption.
 Qed.
 
 Lemma extend_step_spec : forall h0 st sa,
@@ -88,13 +83,13 @@ Proof.
   destruct (alookup stype_eqb s d) as [a|] eqn:El; cbn [option_map].
   - pose proof (alookup_In stype_eqb stype_eqb_spec _ _ _ El) as Hin.
     rewrite Forall_forall in Hd. destruct (Hd _ Hin) as [Ha1 Ha2]. cbn [snd] in *.
-    unfold st_heap, st_dict, st_writes. cbn [fst snd]. split.
+    unfold ninv, st_heap, st_dict, st_writes. cbn [fst snd]. split.
     + split; [rewrite hset_length by lia; lia|]. split.
       * intros c Hc. rewrite hget_hset_other by lia. apply Hold. exact Hc.
       * split; [|split; [exact Hnd|constructor; [lia|exact Hw]]].
         apply Forall_forall. intros sa Hsa. rewrite hset_length by lia. apply Hd. exact Hsa.
     + rewrite (Hold b Hb). apply aset_read; assumption.
-  - unfold halloc. unfold st_heap, st_dict, st_writes. cbn [fst snd].
+  - unfold halloc. unfold ninv, st_heap, st_dict, st_writes. cbn [fst snd].
     assert (Hl1 : length h < length (h ++ [[]])) by (rewrite app_length; simpl; lia).
     rewrite (hget_alloc_new [] h []). cbn [app].
     rewrite (hget_alloc_old [] h [] b) by lia. rewrite (Hold b Hb). split.
@@ -121,8 +116,14 @@ Lemma extend_fold_spec : forall h0 L st,
      = fold_left (gstep stype_eqb) (map (fun sa => (fst sa, hget [] h0 (snd sa))) L) (read_ndict (st_heap st) (st_dict st)).
 Proof.
   intros h0 L. induction L as [|sa r IH]; intros st Hinv HL; simpl; [split; [exact Hinv|reflexivity]|].
-  inversion HL; subst. destruct (extend_step_spec h0 st sa Hinv) as [Hinv' E]; [assumption|].
-  destruct (IH (extend_step st sa) Hinv') as [H1 H2]; [assumption|]. split; [exact H1|]. rewrite H2, E. reflexivity.
+  inversion HL as [|? ? Hsa Hr]; subst. destruct (extend_step_spec h0 st sa Hinv Hsa) as [Hinv' E].
+  destruct (IH (extend_step st sa) Hinv' Hr) as [G1 G2]. split; [exact G1|]. rewrite G2, E. reflexivity.
+Qed.
+
+Lemma fold_concat : forall {Acc U} (f : Acc -> U -> Acc) (ps : list (list U)) (acc : Acc),
+  fold_left (fun a p => fold_left f p a) ps acc = fold_left f (concat ps) acc.
+Proof.
+  intros Acc U f ps. induction ps as [|p r IH]; intros acc; simpl; [reflexivity|]. rewrite fold_left_app. apply IH.
 Qed.
 
 (* _cat_col's name lists: every write goes to a list allocated by the call, every input list is unchanged, the result's
@@ -137,18 +138,17 @@ Lemma cat_col_names_store_proof : forall (h : nheap) (parts : list ndict) (tfs :
   /\ read_ndict (st_heap st) (st_dict st) = group_names tfs.
 Proof.
   intros h parts tfs Hvalid Hnames st. unfold st, cat_col_names_store.
-  rewrite (fold_flat_gen extend_step (fun p : ndict => p) parts (h, [], [])).
+  rewrite (fold_concat extend_step parts (h, [], [])).
   assert (Hinv0 : ninv h (h, [], [])).
   { unfold ninv, st_heap, st_dict, st_writes. cbn [fst snd map]. repeat split; auto; constructor. }
-  assert (HL : Forall (fun sa : stype * nat => snd sa < length h) (flat_map (fun p : ndict => p) parts)).
-  { apply Forall_forall. intros sa Hin. apply in_flat_map in Hin. destruct Hin as [p [Hp Hin]].
+  assert (HL : Forall (fun sa : stype * nat => snd sa < length h) (concat parts)).
+  { apply Forall_forall. intros sa Hin. apply in_concat in Hin. destruct Hin as [p [Hp Hin]].
     rewrite Forall_forall in Hvalid. specialize (Hvalid p Hp). rewrite Forall_forall in Hvalid. apply Hvalid. exact Hin. }
   destruct (extend_fold_spec h _ _ Hinv0 HL) as [[_ [Hold [Hd [_ Hw]]]] E].
   split; [exact Hw|]. split; [exact Hold|]. split.
   - eapply Forall_impl; [|exact Hd]. cbn beta. tauto.
   - rewrite E. unfold st_heap, st_dict. cbn [fst snd read_ndict map]. rewrite group_names_flat. f_equal.
-    unfold flat_names. rewrite (flat_map_concat_map names), Hnames, <- flat_map_concat_map.
-    rewrite map_flat_map. apply flat_map_ext. intros p. reflexivity.
+    unfold flat_names. rewrite (flat_map_concat_map names), Hnames, concat_map. reflexivity.
 Qed.
 
 (* ------------------------------------------------------------------ *)
@@ -195,7 +195,9 @@ Qed.
 (* the wrapped value is the position the pure model computes (norm_index), when that is defined *)
 Lemma wrap_neg_norm_index : forall n i k, norm_index n i = Some k -> wrap_neg n i = Z.of_nat k.
 Proof.
-  intros n i k. unfold norm_index, wrap_neg. destruct (i <? 0)%Z;
-    match goal with |- (if ?c then _ else _) = _ -> _ => destruct c; [discriminate|] end;
-    intros H; injection H as <-; apply Z.ltb_ge in Heqb || idtac; lia.
+  intros n i k. unfold norm_index, wrap_neg. destruct (i <? 0)%Z eqn:E.
+  - destruct ((i + Z.of_nat n <? 0)%Z || (Z.of_nat n <=? i + Z.of_nat n)%Z) eqn:E2; [discriminate|].
+    intros H. injection H as <-. apply orb_false_elim in E2. destruct E2 as [E3 _]. apply Z.ltb_ge in E3. lia.
+  - destruct ((i <? 0)%Z || (Z.of_nat n <=? i)%Z) eqn:E2; [discriminate|].
+    intros H. injection H as <-. apply Z.ltb_ge in E. lia.
 Qed.
